@@ -209,7 +209,20 @@ func (dl *dialLimiter) AddDialJob(dj *dialJob) {
 func (dl *dialLimiter) clearAllPeerDials(p peer.ID) {
 	dl.lk.Lock()
 	defer dl.lk.Unlock()
-	delete(dl.waitingOnPeerLimit, p)
+	// Only drop the jobs whose dial has been cancelled (those of the worker
+	// that is going away). A new worker for the same peer may already have
+	// queued jobs here; they must stay, nobody would ever run or answer them.
+	waiting := dl.waitingOnPeerLimit[p][:0]
+	for _, j := range dl.waitingOnPeerLimit[p] {
+		if !j.cancelled() {
+			waiting = append(waiting, j)
+		}
+	}
+	if len(waiting) == 0 {
+		delete(dl.waitingOnPeerLimit, p)
+	} else {
+		dl.waitingOnPeerLimit[p] = waiting
+	}
 	log.Debug("[limiter] clearing all peer dials", "peer", p)
 	// NB: the waitingOnFd list doesn't need to be cleaned out here, we will
 	// remove them as we encounter them because they are 'cancelled' at this
